@@ -11,6 +11,12 @@ use vrp_core::prelude::*;
 use vrp_verif_harness::pragen::*;
 use vrp_verif_harness::*;
 
+// operator histories (generator and executor of C04): what a history ends in is a solution some solver configuration
+// returns; judged here by the partition specification
+#[allow(dead_code)]
+#[path = "c04.rs"]
+mod c04;
+
 fn base_config() -> Value {
     let repo = std::env::var("VERIF_REPO").unwrap_or_else(|_| "/repo".to_string());
     let text = std::fs::read_to_string(format!("{repo}/examples/data/config/config.full.json")).expect("config.full.json");
@@ -116,7 +122,35 @@ fn gen_cases(rng: &mut Rng, tier: Tier) -> Vec<Value> {
             }
             json!({"k": "solve", "sp": sp, "row": i, "gens": gens, "relations": rng.chance(1, 4), "rseed": rng.next() % 1000})
         })
+        .collect::<Vec<_>>()
+        .into_iter()
+        .chain(history_cases(rng, tier))
         .collect()
+}
+
+/// operator histories of C04, those with explicit objectives first (the order of the objectives decides which partial
+/// results the composite operators keep); the solution the history ends in is judged like a solver output
+fn history_cases(rng: &mut Rng, tier: Tier) -> Vec<Value> {
+    let keep = if tier == Tier::Thorough { 400 } else { 40 };
+    let mut all: Vec<Value> = c04::gen_cases(&mut rng.fork(), tier).into_iter().filter(|c| c["k"] == "history").collect();
+    all.sort_by_key(|c| c["sp"]["objectives"].as_array().is_none_or(|o| o.is_empty()));
+    all.truncate(keep);
+    for c in all.iter_mut() {
+        c["k"] = json!("ophist");
+    }
+    all
+}
+
+fn exec_history(case: &Value) -> Value {
+    let mut c = case.clone();
+    c["k"] = json!("history");
+    let out = c04::exec(&c);
+    let Some(steps) = out.get("steps").and_then(|s| s.as_array()) else { return out };
+    let Some(last) = steps.iter().rev().find(|s| !s["solution"].is_null()) else {
+        return json!({"error": "history without a rendered solution", "sp_final": out["sp_final"]});
+    };
+    let ops: Vec<&str> = steps.iter().filter_map(|s| s["op"].as_str()).collect();
+    json!({"config": format!("operator history: {}", ops.join(" > ")), "sp_final": out["sp_final"], "solution": last["solution"]})
 }
 
 fn solve_with_config(problem: Arc<vrp_core::models::Problem>, config: &Value) -> Result<Value, String> {
@@ -128,6 +162,9 @@ fn solve_with_config(problem: Arc<vrp_core::models::Problem>, config: &Value) ->
 }
 
 fn exec(case: &Value) -> Value {
+    if case["k"] == "ophist" {
+        return exec_history(case);
+    }
     let mut sp: SProblem = serde_json::from_value(case["sp"].clone()).unwrap();
     let row = case["row"].as_u64().unwrap() as usize;
     let gens = case["gens"].as_u64().unwrap() as usize;
